@@ -33,6 +33,9 @@ ASSUMPTIONS = [
     "fresh evaluation = fork of a zygote that imported pde and never evaluated anything",
 ]
 MODULE = "checks.c04_history"
+#: known finding: cache keys hash functions by identity; a throw-away operator factory that was
+#: garbage collected can hand its id (hence its cache entry) to the next throw-away factory
+KEY_FACTORY_ID = "C04:make_operator:OperatorInfo-factory-hashed-by-id:id-recycled-after-gc"
 
 # ---------------------------------------------------------------------------------------
 # request pool
@@ -138,8 +141,16 @@ def family_strategies():
     linked_req = st.fixed_dictionaries({"kind": st.just("op_linked"), "arr": st.integers(0, 1), "newbc": st.booleans(),
                                         "content": st.sampled_from([1.0, 1.0, 5.0, -2.0]), "seed": seed,
                                         "keep_op": st.sampled_from([True, True, False])})
+    info_req = st.fixed_dictionaries({"kind": st.just("op_info"), "grid": st.integers(0, 5), "newgrid": st.booleans(),
+                                      "factor": st.sampled_from([2.0, 3.0]), "name": st.sampled_from(["scale", "scale", ""]),
+                                      "via": st.sampled_from(["info", "info", "register"]),
+                                      "route": st.sampled_from(["make_operator", "field"]), "seed": seed,
+                                      "keep": st.sampled_from([True, True, True, False])})
+    ctrl_req = st.fixed_dictionaries({"kind": st.just("controller"), "solver": st.sampled_from(["rk", "euler"]),
+                                      "backend": st.sampled_from(["numpy", "numba"]), "reuse": st.sampled_from([True, True, False]),
+                                      "amp": st.sampled_from([1.0, 1e-3]), "T": st.sampled_from([2.5, 50.0])})
     return {"op": op_req, "vop": vec_req, "pde": pde_req, "expr": expr_req, "fexpr": fexpr_req,
-            "linked": linked_req}
+            "linked": linked_req, "info": info_req, "ctrl": ctrl_req}
 
 
 def family_of(req):
@@ -154,6 +165,10 @@ def family_of(req):
         return "fexpr"
     if k == "op_linked":
         return "linked"
+    if k == "op_info":
+        return "info"
+    if k == "controller":
+        return "ctrl"
     return "op"
 
 
@@ -204,7 +219,7 @@ def near_request(draw, prev, fams):
 
 def request_strategy(h):
     fams = family_strategies()
-    base = st.one_of(fams["op"], fams["op"], fams["vop"], fams["pde"], fams["expr"], fams["fexpr"], fams["linked"])
+    base = st.one_of(fams["op"], fams["op"], fams["vop"], fams["pde"], fams["expr"], fams["fexpr"], fams["linked"], fams["info"], fams["ctrl"])
     if not h.reqs:
         return base
     prev = st.sampled_from(h.reqs[-4:])
@@ -309,6 +324,55 @@ def evaluate(req, store):
             store[okey] = get_backend("numba").make_operator(grid, "laplace", bcs=store[key])
         op = store[okey]  # a caller may keep the operator while the linked array changes
         return [op(_data(spec, 0, req["seed"], "f8"), args=_nb_args(0.0))]
+    if kind == "op_info":
+        # a user-supplied OperatorInfo (documented input of make_operator): two operators
+        # carrying the same name but different implementations, and an operator registered
+        # again under an existing name (added after the seeded change C04-3 was missed)
+        from pde.tools.typing import OperatorInfo
+
+        grid, spec = _grid(dict(req, grid=req["grid"] % 6), store)
+        factor = float(req["factor"])
+
+        def factory(grid, **kwargs):
+            def scale(arr, out):
+                out[...] = factor * arr[1:-1]
+
+            return scale
+
+        if req.get("keep", True):
+            # the caller keeps its factory alive (e.g. a module-level function), so its id -
+            # which is what the cache key hashes - cannot be recycled for another function
+            store.setdefault("keepalive", []).append(factory)
+        data = _data(GRIDS[req["grid"] % 6], 0, req["seed"], "f8")
+        bc = "auto_periodic_neumann"
+        if req["via"] == "register":
+            nb_backend = get_backend("numba")
+            nb_backend.register_operator(type(grid), "verif_scale", factory, rank_in=0, rank_out=0)
+            try:
+                if req["route"] == "field":
+                    return [pde.ScalarField(grid, data).apply_operator("verif_scale", bc, backend="numba").data]
+                return [grid.make_operator("verif_scale", bc, backend="numba")(data, args=_nb_args(0.0))]
+            finally:
+                nb_backend._operators[type(grid)].pop("verif_scale", None)
+        info = OperatorInfo(factory, rank_in=0, rank_out=0, name=req["name"])
+        if req["route"] == "field":
+            return [pde.ScalarField(grid, data).apply_operator(info, bc, backend="numba").data]
+        return [grid.make_operator(info, bc, backend="numba")(data, args=_nb_args(0.0))]
+    if kind == "controller":
+        # the same solver *instance* is handed to several controllers (adaptive stepping with the
+        # default initial step); a fresh interpreter creates a new solver (seeded change C04-4)
+        from pde.solvers import Controller, EulerSolver, RungeKuttaSolver
+
+        grid, spec = _grid(dict(req, grid=0), store)
+        key = ("solver", req["solver"], req["backend"])
+        if key not in store or not req["reuse"]:
+            eq = pde.DiffusionPDE(1.0, bc={"x-": {"value": 0}, "x+": {"derivative": 0}})
+            cls = RungeKuttaSolver if req["solver"] == "rk" else EulerSolver
+            store[key] = cls(eq, adaptive=True, backend=req["backend"])
+        x = grid.axes_coords[0]
+        state = pde.ScalarField(grid, np.sin(2 * np.pi * x / 8) * req["amp"] + 0.05 * req["amp"] * x)
+        res = Controller(store[key], t_range=req["T"], tracker=None).run(state)
+        return [res.data]
     if kind == "fexpr":
         # field from an expression using the special `cartesian` constant; the history keeps
         # ONE consts dictionary and passes it to every such call (a caller's own dictionary)
@@ -532,10 +596,13 @@ def compare(req, hist_res, fresh_res):
             bad = ~((np.abs(a - b) <= 1e-11 * scale) | (np.isnan(a) & np.isnan(b)) | (a == b))
         if np.any(bad):
             i = np.unravel_index(np.argmax(bad), a.shape)
+            key = f"{req['kind']}:{req.get('eq', req.get('op', ''))}"
+            if req["kind"] == "op_info" and not req.get("keep", True):
+                key = KEY_FACTORY_ID
             raise Violation(
                 f"result depends on history: request {short} returned {a[i]!r} at {tuple(map(int, i))} after the "
                 f"history but {b[i]!r} in a fresh interpreter (max |diff| {np.nanmax(np.abs(a - b)):.3g})",
-                key=f"{req['kind']}:{req.get('eq', req.get('op', ''))}")
+                key=key)
     return "ok"
 
 
